@@ -179,3 +179,56 @@ Print Assumptions C10_deviating_frame_rejected.
 Print Assumptions C10_foreign_session_frame_rejected.
 Print Assumptions C10_no_nonce_reuse.
 Print Assumptions C14_stream.
+
+(* ==================================================================================================
+   The nonce counters of a whole boss <-> remote doer session (Model/RemoteSession.v carries them exactly as the
+   code does: one counter per thread starting at the direction's lsb - boss sends 0 / expects 1, doer sends 1 /
+   expects 0 -, +2 per frame, the counter RETURNED by the doer's sending thread re-used by its main thread for the
+   final message; Model/RemoteSessionLog.v adds a ghost log of every frame ever written, per direction, on top of the
+   unchanged transition system: lreach / reach are the same runs - C10_remote_log_is_conservative).
+   Proofs: Proofs/RemoteSessionNonce.v.  For every protocol, capacity, socket capacity, fault plan, interleaving:
+     (S6) C10_remote_nonces_distinct: all frames ever written in a session - both directions, the doer's final
+          message included - have pairwise distinct nonces; the i-th frame of a direction carries lsb + 2*i; the frames
+          on the wire are a suffix of the log; the sending counters are lsb + 2 * (frames written).
+          C10_remote_expected_nonce: while a receiving thread lives, its expected counter IS the nonce of the next
+          frame on its wire - an honest frame is never rejected for its nonce. *)
+From RJ Require Model.RemoteSession Model.RemoteSessionLog Proofs.RemoteSessionNonce Proofs.RemoteSessionWitness2.
+
+Theorem C10_remote_nonces_distinct : forall c x l, RemoteSessionLog.lreach c x l ->
+  NoDup (map RemoteSession.fnonce (RemoteSessionLog.lb2d l ++ RemoteSessionLog.ld2b l)) /\
+  (forall i f, nth_error (RemoteSessionLog.lb2d l) i = Some f -> RemoteSession.fnonce f = (0 + 2 * N.of_nat i)%N) /\
+  (forall i f, nth_error (RemoteSessionLog.ld2b l) i = Some f -> RemoteSession.fnonce f = (1 + 2 * N.of_nat i)%N) /\
+  (exists pre, RemoteSessionLog.lb2d l = pre ++ RemoteSession.b2d (RemoteSessionLog.base l)) /\
+  (exists pre, RemoteSessionLog.ld2b l = pre ++ RemoteSession.d2b (RemoteSessionLog.base l)) /\
+  RemoteSession.sn (RemoteSession.be (RemoteSessionLog.base l)) = RemoteSessionLog.nend 0 (RemoteSessionLog.lb2d l) /\
+  RemoteSession.sn (RemoteSession.de (RemoteSessionLog.base l)) = RemoteSessionLog.nend 1 (RemoteSessionLog.ld2b l).
+Proof. exact RemoteSessionNonce.nonces_distinct. Qed.
+
+Theorem C10_remote_expected_nonce : forall c x s, RemoteSession.reach c x s ->
+  (RemoteSession.rcv_ended (RemoteSession.rcv_t (RemoteSession.de s)) = false ->
+     forall f t, RemoteSession.b2d s = f :: t -> RemoteSession.fnonce f = RemoteSession.rn (RemoteSession.de s)) /\
+  (RemoteSession.rcv_ended (RemoteSession.rcv_t (RemoteSession.be s)) = false ->
+     forall f t, RemoteSession.d2b s = f :: t -> RemoteSession.fnonce f = RemoteSession.rn (RemoteSession.be s)).
+Proof. exact RemoteSessionNonce.expected_nonce. Qed.
+
+(* the logged system has exactly the runs of the model the other theorems are about *)
+Theorem C10_remote_log_is_conservative : forall c x,
+  (forall l, RemoteSessionLog.lreach c x l -> RemoteSession.reach c x (RemoteSessionLog.base l)) /\
+  (forall s, RemoteSession.reach c x s -> exists l, RemoteSessionLog.lreach c x l /\ RemoteSessionLog.base l = s).
+Proof. intros c x. split; [apply RemoteSessionNonce.lreach_base | apply RemoteSessionNonce.reach_has_log]. Qed.
+
+(* non-trivial: the log of a complete fault-free session; the final message is the doer's 4th frame, nonce 7 *)
+Example C10_remote_example_log : exists c x l,
+  RemoteSessionLog.lreach c x l /\ RemoteSession.final (RemoteSessionLog.base l) = true /\
+  map RemoteSession.fnonce (RemoteSessionLog.lb2d l) = [0; 2; 4; 6]%N /\
+  map RemoteSession.fnonce (RemoteSessionLog.ld2b l) = [1; 3; 5; 7]%N /\
+  map RemoteSession.fpay (RemoteSessionLog.ld2b l) =
+    [RemoteSession.MResp 11; RemoteSession.MResp 12; RemoteSession.MResp 31; RemoteSession.MFinal]%N.
+Proof.
+  exists (RemoteSessionWitness.cfg 0 0), RemoteSessionWitness2.sc_cov, RemoteSessionWitness2.l_cov.
+  destruct RemoteSessionWitness2.log_of_a_complete_session as (A & B & C & D & E & _). auto.
+Qed.
+
+Print Assumptions C10_remote_nonces_distinct.
+Print Assumptions C10_remote_expected_nonce.
+Print Assumptions C10_remote_log_is_conservative.
